@@ -24,6 +24,8 @@ import (
 	"verifharness/kit"
 )
 
+// probe replays the node-limit finding end to end (`vh-c03 probe`): a dynamic NodePool with limits.nodes = 2,
+// four mutually anti-affine pods in one batch, real Provisioner.Schedule + CreateNodeClaims.
 func probe() {
 	ctx := kit.Context()
 	clk := clock.NewFakeClock(time.Unix(1_700_000_000, 0))
